@@ -647,6 +647,15 @@ class TraitCompound(TraitHandler):
 
         for handler in self.handlers:
             fv = getattr(handler, "fast_validate", None)
+            if (
+                fv is not None
+                and fv[0] == ValidateTrait.adapt
+                and fv[2] == 2
+            ):
+                # Instance(..., adapt="default") falls back to its own
+                # default value, which the compiled compound validator does
+                # not know: validate that alternative in Python.
+                fv = None
             if fv is not None:
                 validates.append(handler.validate)
                 if fv[0] == ValidateTrait.complex:
